@@ -4,10 +4,14 @@ Extracted (python `ast` only):
   * ALLOWED_GETITEM_TYPES / ALLOWED_DESCRIPTOR_ACCESS as lists of CPython type names
   * the guard expressions of DirectObjectAccess.py__simple_getitem__ / py__iter__list /
     is_allowed_getattr and of CompiledValueFilter._get, translated to Lean `Bool` functions
-  * three facts about code shape that decide whether the FULL statement can hold:
-      metaHitReportsGet   getattr_static's metaclass branch reports `__get__` of the hit
-      hasIterExecutes     DirectObjectAccess.has_iter calls iter(obj)
-      boolExecutes        DirectObjectAccess.py__bool__ calls bool(obj) without a type guard
+  * the guard of DirectObjectAccess.py__bool__ and what _has_builtin_bool looks at (names in lookup
+    order, accepted `type(method)`s)
+  * shape checks (TieBroken otherwise) of the code the model transcribes by hand:
+      getattr_static        metaclass looked at for types; its data descriptors beat class attributes;
+                            every metaclass hit reports `__get__`
+      lookup_special_method_static   `_check_class(type(obj), name)` - reads class dictionaries only
+      has_iter / py__iter__list      reach `self._obj` only through that static lookup (plus the guarded
+                                     loop over the listed builtin containers); no `iter(obj)`, no `obj.__iter__`
   * settings default and the line that copies the setting onto the inference state
 """
 import ast
@@ -73,6 +77,40 @@ def ifs_of(fn):
     return [n for n in fn.body if isinstance(n, ast.If)]
 
 
+def code_body(fn):
+    """statements of a function without its docstring"""
+    body = list(fn.body)
+    if body and isinstance(body[0], ast.Expr) and isinstance(body[0].value, ast.Constant) \
+            and isinstance(body[0].value.value, str):
+        body = body[1:]
+    return body
+
+
+def expect_body(src, dotted, expected, why):
+    """the function is exactly this list of statements (compared after ast.unparse)"""
+    fn = src.find(dotted)
+    got = [u(n) for n in code_body(fn)]
+    want = [u(ast.parse(e).body[0]) for e in expected]
+    if got != want:
+        raise TieBroken('%s: %s %s' % (src.rel, dotted, why), u(fn))
+    return fn
+
+
+def obj_uses(fn, receiver='self._obj'):
+    """how the live object is touched: (attribute reads on it, calls it is an argument of)"""
+    attrs, calls = [], []
+    for n in ast.walk(fn):
+        if isinstance(n, ast.Attribute) and u(n.value) == receiver:
+            attrs.append(n.attr)
+        elif isinstance(n, ast.Call) and any(u(a) == receiver for a in n.args):
+            calls.append(u(n.func))
+        elif isinstance(n, ast.Subscript) and u(n.value) == receiver:
+            attrs.append('[]')
+        elif isinstance(n, ast.For) and receiver in u(n.iter):
+            calls.append('for')
+    return attrs, calls
+
+
 def generate(repo, g):
     access = Src(repo, 'jedi/inference/compiled/access.py')
     static = Src(repo, 'jedi/inference/compiled/getattr_static.py')
@@ -100,14 +138,33 @@ def generate(repo, g):
     if not kw or u(fn.args.kw_defaults[fn.args.kwonlyargs.index(kw[0])]) != 'True':
         raise TieBroken('access.py: py__simple_getitem__ safe= default is not True')
 
-    # --- py__iter__list: try obj.__iter__ / annotation / type guard / loop
+    # --- lookup_special_method_static: the static `_PyType_Lookup`
+    expect_body(static, 'lookup_special_method_static',
+                ['result = _check_class(type(obj), name)',
+                 'if result is _sentinel:\n    return default',
+                 'return result'],
+                'is not `_check_class(type(obj), name)` with a default')
+
+    # --- py__iter__list: static lookup of __iter__ / annotation / type guard / loop
     fn = access.find('DirectObjectAccess.py__iter__list')
+    attrs, calls = obj_uses(fn)
+    if attrs or 'iter' in calls:
+        raise TieBroken('access.py: py__iter__list reads an attribute of the live object / calls iter(obj) '
+                        '(runs user descriptors, __getattr__, __iter__)', u(fn))
+    body = code_body(fn)
     ifs = ifs_of(fn)
-    if len(ifs) != 1 or u(ifs[0].body[-1]) != 'return []' or not isinstance(fn.body[0], ast.Try) \
-            or u(fn.body[0].body[0]) != 'iter_method = self._obj.__iter__':
+    if len(ifs) != 3 or len(body) < 6 \
+            or u(body[0]) != "iter_method = lookup_special_method_static(self._obj, '__iter__')" \
+            or u(body[1]) != 'if iter_method is None:\n    return None' \
+            or u(body[2]) != 'p = DirectObjectAccess(self._inference_state, iter_method).get_return_annotation()' \
+            or u(body[3]) != 'if p is not None:\n    return [p]' \
+            or body[4] is not ifs[2] or u(ifs[2].body[-1]) != 'return []' or ifs[2].orelse \
+            or sorted(set(calls)) != ['enumerate', 'for', 'lookup_special_method_static', 'type'] \
+            or not isinstance(body[-2], ast.For) or u(body[-2].iter) != 'enumerate(self._obj)' \
+            or u(body[-1]) != 'return lst':
         raise TieBroken('access.py: py__iter__list shape changed', u(fn))
     g.define('iterListRefuses (typeAllowed : Bool)', 'Bool',
-             to_lean(ifs[0].test, {'type(self._obj) in ALLOWED_GETITEM_TYPES': 'typeAllowed'}),
+             to_lean(ifs[2].test, {'type(self._obj) in ALLOWED_GETITEM_TYPES': 'typeAllowed'}),
              'access.py:DirectObjectAccess.py__iter__list guard')
 
     # --- MixedObject.py__simple_getitem__: compiled path only for allowed types
@@ -178,41 +235,124 @@ def generate(repo, g):
     if '(name, self.is_allowed_getattr(name)) for name in self.dir()' not in u(fn):
         raise TieBroken('access.py: get_dir_infos changed', u(fn))
 
-    # --- getattr_static: metaclass branch
+    # --- getattr_static: order of the decisions, metaclass handling
     fn = static.find('getattr_static')
-    meta_if = [n for n in fn.body if isinstance(n, ast.If) and u(n.test) == 'obj is klass']
-    rets = [n for i in meta_if for n in ast.walk(i) if isinstance(n, ast.Return)]
-    if len(meta_if) != 1 or len(rets) != 1 or not isinstance(rets[0].value, ast.Tuple) \
-            or len(rets[0].value.elts) != 2:
-        raise TieBroken('getattr_static.py: metaclass branch not found', u(fn))
-    flag = u(rets[0].value.elts[1])
-    if flag == 'False':
-        meta = False
-    elif '_safe_hasattr' in flag and '__get__' in flag:
-        meta = True
-    else:
-        raise TieBroken('getattr_static.py: metaclass branch returns an unknown descriptor flag', flag)
-    g.define('metaHitReportsGet', 'Bool', lean_bool(meta),
-             'getattr_static.py:getattr_static `if obj is klass:` return (hit, <flag>)')
-    # priority rule for data descriptors
-    prio = [n for n in fn.body if isinstance(n, ast.If)
-            and u(n.test) == 'instance_result is not _sentinel and klass_result is not _sentinel']
-    if len(prio) != 1 or u(prio[0].body[0].test) != \
-            "_safe_hasattr(klass_result, '__get__') and _safe_is_data_descriptor(klass_result)":
-        raise TieBroken('getattr_static.py: data-descriptor priority rule changed', u(fn))
+    tops = [n for n in code_body(fn) if isinstance(n, ast.If)]
+    tests = [u(n.test) for n in tops]
+    want = ['not _is_type(obj)',
+            'meta_result is not _sentinel and klass_result is not _sentinel',
+            'instance_result is not _sentinel and klass_result is not _sentinel',
+            'instance_result is not _sentinel', 'klass_result is not _sentinel',
+            'meta_result is not _sentinel', 'default is not _sentinel']
+    if tests != want:
+        if 'obj is klass' in tests:
+            raise TieBroken('getattr_static.py: the metaclass is only looked at after the class attributes '
+                            '(a data descriptor of the metaclass shadowing a class attribute is missed)', u(fn))
+        raise TieBroken('getattr_static.py: getattr_static decisions changed', repr(tests))
+    by = dict(zip(want, tops))
+    stmts = [u(n) for n in code_body(fn)]
+    first = by['not _is_type(obj)']
+    if [u(n) for n in first.orelse] != ['klass = obj', 'meta_result = _check_class(type(klass), attr)'] \
+            or u(first.body[0]) != 'klass = type(obj)' \
+            or 'meta_result' in u(ast.Module(body=first.body, type_ignores=[])) \
+            or stmts[:2] != ['instance_result = _sentinel', 'meta_result = _sentinel'] \
+            or 'klass_result = _check_class(klass, attr)' not in stmts:
+        raise TieBroken('getattr_static.py: instance / class / metaclass lookups changed', u(fn))
+    prio = by['meta_result is not _sentinel and klass_result is not _sentinel']
+    if len(prio.body) != 1 or not isinstance(prio.body[0], ast.If) or prio.orelse or u(prio.body[0].test) != \
+            "_safe_hasattr(meta_result, '__get__') and _safe_is_data_descriptor(meta_result)" \
+            or u(prio.body[0].body[-1]) != 'return (meta_result, True)' or prio.body[0].orelse:
+        raise TieBroken('getattr_static.py: metaclass data-descriptor priority rule changed', u(prio))
+    prio = by['instance_result is not _sentinel and klass_result is not _sentinel']
+    if len(prio.body) != 1 or not isinstance(prio.body[0], ast.If) or prio.orelse or u(prio.body[0].test) != \
+            "_safe_hasattr(klass_result, '__get__') and _safe_is_data_descriptor(klass_result)" \
+            or u(prio.body[0].body[-1]) != 'return (klass_result, True)' or prio.body[0].orelse:
+        raise TieBroken('getattr_static.py: data-descriptor priority rule changed', u(prio))
+    for test, ret in [('instance_result is not _sentinel', 'return (instance_result, False)'),
+                      ('klass_result is not _sentinel',
+                       "return (klass_result, _safe_hasattr(klass_result, '__get__'))"),
+                      ('meta_result is not _sentinel',
+                       "return (meta_result, _safe_hasattr(meta_result, '__get__'))"),
+                      ('default is not _sentinel', 'return (default, False)')]:
+        if [u(n) for n in by[test].body] != [ret] or by[test].orelse:
+            raise TieBroken('getattr_static.py: `if %s` no longer is `%s`' % (test, ret), u(by[test]))
+    if stmts[-1] != 'raise AttributeError(attr)':
+        raise TieBroken('getattr_static.py: getattr_static no longer ends in AttributeError', stmts[-1])
 
-    # --- has_iter / py__bool__
+    # --- has_iter: two static lookups, nothing is called on the object
     fn = access.find('DirectObjectAccess.has_iter')
-    has_iter_exec = any(isinstance(n, ast.Call) and u(n) == 'iter(self._obj)' for n in ast.walk(fn))
-    g.define('hasIterExecutes', 'Bool', lean_bool(has_iter_exec),
-             'access.py:DirectObjectAccess.has_iter contains iter(self._obj)')
+    attrs, calls = obj_uses(fn)
+    if 'iter' in calls or attrs:
+        raise TieBroken('access.py: has_iter calls iter(self._obj) / reads an attribute of the live object '
+                        '(runs a user-defined __iter__)', u(fn))
+    expect_body(access, 'DirectObjectAccess.has_iter',
+                ["iter_method = lookup_special_method_static(self._obj, '__iter__', _sentinel)",
+                 "if iter_method is _sentinel:\n"
+                 "    getitem = lookup_special_method_static(self._obj, '__getitem__', _sentinel)\n"
+                 "    return getitem is not _sentinel",
+                 'return iter_method is not None'],
+                'is not the static __iter__ / __getitem__ lookup')
+    fn = value.find('CompiledValue.py__iter__')
+    if not any(isinstance(n, ast.If) and u(n.test) == 'not self.access_handle.has_iter()' for n in fn.body) \
+            or 'access_path_list = self.access_handle.py__iter__list()' not in [u(n) for n in fn.body]:
+        raise TieBroken('value.py: CompiledValue.py__iter__ is not has_iter() + py__iter__list()', u(fn))
+
+    # --- py__bool__: `if safe and not _has_builtin_bool(self._obj): return None` ; bool(obj)
     fn = access.find('DirectObjectAccess.py__bool__')
-    body = [n for n in fn.body if not (isinstance(n, ast.Expr) and isinstance(n.value, ast.Constant))]
-    bool_exec = len(body) == 1 and u(body[0]) == 'return bool(self._obj)'
-    if not bool_exec and not any(isinstance(n, ast.If) for b in body for n in ast.walk(b)):
-        raise TieBroken('access.py: py__bool__ is neither bool(obj) nor guarded', u(fn))
-    g.define('boolExecutes', 'Bool', lean_bool(bool_exec),
-             'access.py:DirectObjectAccess.py__bool__ is `return bool(self._obj)`')
+    body = code_body(fn)
+    if len(body) == 1 and u(body[0]) == 'return bool(self._obj)':
+        raise TieBroken('access.py: py__bool__ is an unguarded bool(self._obj) '
+                        '(runs user-defined __bool__ / __len__)', u(fn))
+    if len(body) != 2 or not isinstance(body[0], ast.If) or u(body[0].body[-1]) != 'return None' \
+            or body[0].orelse or u(body[1]) != 'return bool(self._obj)':
+        raise TieBroken('access.py: py__bool__ no longer is guard + bool(obj)', u(fn))
+    g.define('boolRefuses (safe builtinBool : Bool)', 'Bool',
+             to_lean(body[0].test, {'safe': 'safe', '_has_builtin_bool(self._obj)': 'builtinBool'}),
+             'access.py:DirectObjectAccess.py__bool__ guard')
+    kw = [a for a in fn.args.kwonlyargs if a.arg == 'safe']
+    if not kw or u(fn.args.kw_defaults[fn.args.kwonlyargs.index(kw[0])]) != 'True':
+        raise TieBroken('access.py: py__bool__ safe= default is not True')
+    fn = value.find('CompiledValue.py__bool__')
+    calls = [n for n in ast.walk(fn) if isinstance(n, ast.Call) and u(n.func) == 'self.access_handle.py__bool__']
+    if len(calls) != 1 or [u(k.value) for k in calls[0].keywords if k.arg == 'safe'] != \
+            ['not self.inference_state.allow_unsafe_executions']:
+        raise TieBroken('value.py: CompiledValue.py__bool__ does not pass safe=not allow_unsafe_executions',
+                        u(fn))
+    # _has_builtin_bool: for name in (<names>): method = static lookup; if found: return type(method) is <T>
+    fn = access.find('_has_builtin_bool')
+    body = code_body(fn)
+    ok = len(body) == 2 and isinstance(body[0], ast.For) and u(body[0].target) == 'name' \
+        and isinstance(body[0].iter, ast.Tuple) and not body[0].orelse and len(body[0].body) == 2 \
+        and u(body[0].body[0]) == 'method = lookup_special_method_static(obj, name, _sentinel)' \
+        and isinstance(body[0].body[1], ast.If) and u(body[0].body[1].test) == 'method is not _sentinel' \
+        and len(body[0].body[1].body) == 1 and isinstance(body[0].body[1].body[0], ast.Return) \
+        and not body[0].body[1].orelse and u(body[1]) == 'return True'
+    if not ok:
+        raise TieBroken('access.py: _has_builtin_bool shape changed', u(fn))
+    try:
+        order = [ast.literal_eval(e) for e in body[0].iter.elts]
+    except ValueError:
+        raise TieBroken('access.py: _has_builtin_bool names are not literals', u(body[0].iter))
+    ret = body[0].body[1].body[0].value
+    if not (isinstance(ret, ast.Compare) and len(ret.ops) == 1 and u(ret.left) == 'type(method)'):
+        raise TieBroken('access.py: _has_builtin_bool does not decide by type(method)', u(ret))
+    if isinstance(ret.ops[0], ast.Is):
+        accepted = [ret.comparators[0]]
+    elif isinstance(ret.ops[0], ast.In) and isinstance(ret.comparators[0], ast.Tuple):
+        accepted = ret.comparators[0].elts
+    else:
+        raise TieBroken('access.py: _has_builtin_bool does not decide by type(method) is/in', u(ret))
+    acc = []
+    for e in accepted:
+        n = u(e)
+        if n not in TYPE_NAMES:
+            raise TieBroken('access.py: _has_builtin_bool accepts a type the model does not know', n)
+        if n in ALIASES and u(access.assign_value(n)) != ALIASES[n]:
+            raise TieBroken('access.py: alias %s changed' % n, u(access.assign_value(n)))
+        acc.append(TYPE_NAMES[n])
+    g.define('boolLookupOrder', 'List String', lean_list(order), 'access.py:_has_builtin_bool names')
+    g.define('builtinMethodTypes', 'List String', lean_list(acc),
+             'access.py:_has_builtin_bool `type(method) is ...`')
 
     # --- settings
     g.define('allowUnsafeDefault', 'Bool', lean_bool(settings.const('allow_unsafe_interpreter_executions')),
@@ -227,6 +367,8 @@ def generate(repo, g):
         raise TieBroken('inference/__init__.py: allow_unsafe_executions default is not False')
 
     for s, d in [(static, 'getattr_static'), (static, '_check_instance'), (static, '_check_class'),
+                 (static, 'lookup_special_method_static'), (access, '_has_builtin_bool'),
+                 (value, 'CompiledValue.py__bool__'),
                  (static, '_shadowed_dict'), (static, '_safe_hasattr'), (static, '_safe_is_data_descriptor'),
                  (access, 'DirectObjectAccess.is_allowed_getattr'),
                  (access, 'DirectObjectAccess.py__simple_getitem__'),
